@@ -168,4 +168,20 @@ PROPS["C08"] = {
         "timeout": {"quick": 300, "thorough": 1500},
     }
 
+PROPS["C05"] = {
+    "modules": ["Hertz.Props.C05"],
+    "rule": "Every string of <=3 (thorough <=4) tokens over {a, CR, LF, NUL, ':', SP} as header name and as header value through every header-writing "
+            "entry point (RequestHeader/ResponseHeader Set, Add, SetCookie, Trailer.Set, method, URI, User-Agent, Host, Content-Type, Server, "
+            "Content-Encoding, RequestContext.Header/Redirect/SetCookie/SetContentType, appendHeaderLine itself), plus random setter scripts of 1..6 "
+            "calls with hostile strings; the real Header() bytes are compared with the model computed from a dump of the object's state.",
+    "exhaustive_note": "all hostile strings up to the stated length are enumerated for every entry point",
+    "level_text": "For ALL states of the header objects (every field an arbitrary byte string) the Lean model of the three serialisers is proved to read back, "
+                  "under a strict line reader, as one start line plus exactly the kept fields, names valid, CR/LF neutralised (table facts over the regenerated "
+                  "tables). The emission skeleton of the Go serialisers is regenerated on every run and proved to write raw bytes only for the start line and "
+                  "the closing CRLF. Model bytes are compared with the real Header() output on every explored state.",
+    "level_note": "Trusted: Lean kernel, translator (tables, emission skeleton), harness state dump hook (read-only). The request start line (method, URI) is outside "
+                  "the property's list and appears as a hypothesis; the Date header value is Go's.",
+    "assumptions": ["method and request URI are free of CR/LF (not header APIs)"],
+}
+
 NOT_CLAIMED = {}
